@@ -449,6 +449,27 @@ def constructs(tree, acc=None, depth=1):
     return acc
 
 
+MASK = 0     # which of the three known deviations grass no longer shows (bit i = TAGS[i] repaired); see detect_mask
+
+
+def detect_mask(pool):
+    """The correspondence runs against the model of the code *as it stands*.  Each known deviation has
+    a switch in the model and a witness that isolates it; a witness on which grass now satisfies the
+    property means that deviation has been repaired in /repo, so its switch is flipped (and the
+    known-findings entry reported stale) instead of letting the tie break on every @at-root case."""
+    mask = 0
+    idxs = sorted(WITNESS_TAGS)
+    trees = [CORPUS[i] for i in idxs]
+    model = run_model(trees)
+    obs = compile_all(pool, trees, ["E"] * len(trees))
+    verdicts = driver([f"csstree check {enc_tree(t)} {enc_obs(o) if not isinstance(o, tuple) else 'E'}"
+                       for t, o in zip(trees, obs)])
+    for i, v, o in zip(idxs, verdicts, obs):
+        if v == "ok holds" and not isinstance(o, tuple):
+            mask |= 1 << TAGS.index(WITNESS_TAGS[i])
+    return mask
+
+
 def evaluate(ck, pool, trees, record=True):
     """Returns list of failure dicts (direct oracle) for `trees`; counts tie disagreements."""
     model = run_model(trees)
@@ -456,13 +477,13 @@ def evaluate(ck, pool, trees, record=True):
     ck.cov["unsupported_dropped"] += len(trees) - len(keep)
     trees = [trees[i] for i in keep]
     model = [model[i] for i in keep]
-    obs = compile_all(pool, trees, [m[1] for m in model])
+    obs = compile_all(pool, trees, [m[1 + MASK] for m in model])
     verdicts = driver([f"csstree check {enc_tree(t)} {enc_obs(o) if not isinstance(o, tuple) else 'E'}"
                        for t, o in zip(trees, obs)])
     failing = []
     for t, m, o, v in zip(trees, model, obs, verdicts):
         spec, variants_ = norm(m[0]), [norm(x) for x in m[1:]]
-        code, specified = variants_[0], variants_[7]
+        code, specified = variants_[MASK], variants_[7]
         on = norm(o)
         src = body_text(t)
         if record:
@@ -493,10 +514,11 @@ def evaluate(ck, pool, trees, record=True):
             if tie_ok and specified == spec:
                 # smallest sets of repaired deviations under which the model yields what the property expects
                 for size in (1, 2, 3):
-                    hit = [mk for mk in range(1, 8) if bin(mk).count("1") == size and variants_[mk] == spec]
+                    hit = [mk for mk in range(8) if mk & MASK == MASK and bin(mk ^ MASK).count("1") == size
+                           and variants_[mk] == spec]
                     if hit:
                         for mk in hit:
-                            tags += [TAGS[b] for b in range(3) if mk >> b & 1 and TAGS[b] not in tags]
+                            tags += [TAGS[b] for b in range(3) if (mk ^ MASK) >> b & 1 and TAGS[b] not in tags]
                         break
             failing.append({"source": src, "tree": t, "impl_observation": on, "expected_by_property": spec,
                             "model_treeBuild_as_found": code, "model_treeBuild_specified": specified,
@@ -569,7 +591,7 @@ def shrink(ck, pool, fail, same):
 # ---------------------------------------------------------------------------------------------
 
 def gen_trees(ck, tier):
-    n_rand = 4000 if tier == "quick" else 60000
+    n_rand = 3000 if tier == "quick" else 60000
     trees = [t for t in CORPUS]
     g = Gen(ck.rng)
     for _ in range(n_rand):
@@ -577,7 +599,7 @@ def gen_trees(ck, tier):
     small = enumerate_small()
     if tier == "quick":
         ck.rng.shuffle(small)
-        small = small[:1200]
+        small = small[:900]
     trees += small
     if tier == "thorough":
         g2 = Gen(ck.rng, max_depth=5, max_width=3, p_invalid=0.05)
@@ -605,6 +627,9 @@ def run(tier, seed):
         ck.unproved("correspondence-broken", {"why": "runner does not build against /repo", "error": getattr(ck, "build_error", "")})
         return ck.finish()
     pool = RunnerPool()
+    global MASK
+    MASK = detect_mask(pool)
+    ck.cov["deviations_modelled_as_found"] = [TAGS[b] for b in range(3) if not MASK >> b & 1]
     trees = gen_trees(ck, tier)
     failing = evaluate(ck, pool, trees)
     if (not ck.proof["ok"] or ck.cov["model_disagreements"]) and not [f for f in failing if not f["tags"]] and tier == "quick":
@@ -616,7 +641,8 @@ def run(tier, seed):
     for idx, tag in WITNESS_TAGS.items():
         src = body_text(CORPUS[idx])
         if not any(f["source"] == src and tag in f["tags"] for f in failing):
-            ck.notes.append(f"known finding {tag}: witness `{src}` no longer fails — entry is stale")
+            ck.notes.append(f"known finding {tag}: witness `{src}` no longer fails — entry is stale; "
+                            "the model switch for it is taken as repaired in this run")
     failing.sort(key=lambda f: len(f["source"]))
     untagged = [f for f in failing if not f["tags"]]
     tagged = [f for f in failing if f["tags"]]
@@ -649,6 +675,8 @@ def replay(path):
     ck.disagreements = []
     ck.do_build_runner()
     pool = RunnerPool(2)
+    global MASK
+    MASK = detect_mask(pool)
     trees = [r["tree"]] if "tree" in r else [c["tree"] for c in r.get("cases", []) if "tree" in c]
     if not trees:
         print(json.dumps(r, indent=1))
@@ -657,12 +685,12 @@ def replay(path):
     for t in trees:
         fs = evaluate(ck, pool, [t], record=False)
         model = run_model([t])[0]
-        obs = compile_all(pool, [t], [model[1]])[0]
+        obs = compile_all(pool, [t], [model[1 + MASK]])[0]
         print("source      :", body_text(t))
         print("grass       :", norm(obs))
         print("flattenSpec :", norm(model[0]))
-        print("treeBuild   :", norm(model[1]))
-        print("verdicts    : proof=(see ./check C04) tie=%s direct=%s" % (norm(obs) == norm(model[1]), "holds" if not fs else "FAILS " + str(fs[0]["tags"])))
+        print("treeBuild   :", norm(model[1 + MASK]))
+        print("verdicts    : proof=(see ./check C04) tie=%s direct=%s" % (norm(obs) == norm(model[1 + MASK]), "holds" if not fs else "FAILS " + str(fs[0]["tags"])))
         if fs and not fs[0]["tags"]:
             rc = 1
     return rc
